@@ -10,6 +10,7 @@
 //!   !bg <command>            run the command on a background task (answer later via !join)
 //!   !join                    await the background command and return its output
 //!   !rlte <QUERY ...>        the zones the ORDER BY pre-selection (RLTE planner) picks for that query
+//!   !blast <n> <base> <cmd>  n concurrent commands ({i} replaced by base..), answers grouped by status
 //!   !bgcdone                 whether the background compaction round (see !bgcompact) has finished
 //!   !wait_parked <name> <ms> wait until some task is parked at <name>
 //!   !trace                   take the step-point trace
@@ -207,6 +208,28 @@ pub fn run_life() {
                             }
                             _ => json!({"error": "parse"}),
                         }
+                    }
+                    "blast" => {
+                        // !blast <n> <base> <command with {i}>: n concurrent commands ({i} = base .. base+n-1), each on
+                        // its own task (as many connections would issue them); answers grouped by status
+                        let n: usize = t.get(1).and_then(|s| s.parse().ok()).unwrap_or(0);
+                        let base: usize = t.get(2).and_then(|s| s.parse().ok()).unwrap_or(0);
+                        let tmpl = rest.splitn(4, ' ').nth(3).unwrap_or("").to_string();
+                        let mut hs = Vec::with_capacity(n);
+                        for i in 0..n {
+                            let c2 = Arc::clone(&ctx); let u = user.clone();
+                            let line = tmpl.replace("{i}", &(base + i).to_string());
+                            hs.push(tokio::spawn(async move { run_command(&c2, &line, u, auth).await }));
+                        }
+                        let (mut ok, mut busy, mut other) = (Vec::new(), Vec::new(), Vec::new());
+                        for (i, h) in hs.into_iter().enumerate() {
+                            let v = h.await.unwrap_or(json!({"panic": "task"}));
+                            let out = v.get("out").and_then(|x| x.as_str()).unwrap_or("");
+                            if v.get("error").is_none() && out.contains("\"status\":200") { ok.push(base + i) }
+                            else if out.contains("\"status\":503") { busy.push(base + i) }
+                            else { other.push(base + i) }
+                        }
+                        json!({"ok": ok, "busy": busy, "other": other})
                     }
                     "bgcdone" => json!({"done": bgc.as_ref().map(|h| h.is_finished()).unwrap_or(true)}),
                     "failwrite" => { FAIL_NEXT.store(t.get(1).and_then(|s| s.parse().ok()).unwrap_or(0), std::sync::atomic::Ordering::SeqCst); json!({"ok": true}) }
